@@ -291,7 +291,7 @@ Inductive pev :=
   | PvHandshake
   | PvSecured (inbound : bool) (p : Z) (allow : bool)
   | PvUpgraded (allow : bool)
-  | PvAdmitted
+  | PvConnected
   | PvClosed.
 
 (* after a transport dial (outbound) or the handshake (inbound) *)
@@ -302,7 +302,7 @@ Definition finish (sites : list gate) (m : rules) (inbound : bool) (p : Z) : lis
   (if sec then
      let up := if has_gate sites GUpgraded then intercept_upgraded m else true in
      (if has_gate sites GUpgraded then [PvUpgraded up] else []) ++
-     (if up then [PvAdmitted] else [PvClosed])
+     (if up then [PvConnected] else [PvClosed])
    else [PvClosed]).
 
 (* outbound: dialPeer -> filterKnownUndialables -> transport dial of every
